@@ -34,6 +34,15 @@ Theorem C04_withdrawn_stays_withdrawn : forall ops1 x ops2,
   up s = true -> drained (r s) -> aget Z.eqb (ridx x) (peer s) = None.
 Proof. exact last_operation_wins_withdraw. Qed.
 
+(* the same with watchdog operations (add_to_rib_watchdog, announce_watchdog, withdraw_watchdog) anywhere:
+   they expand to base operations chosen by the watchdog table *)
+Theorem C04_converges_with_watchdogs : forall wops,
+  let s := wrun wops in
+  up s = true -> drained (r s) ->
+  forall k, aget Z.eqb k (peer s) = option_map rval (aget Z.eqb k (seen (r s)))
+         /\ aget Z.eqb k (intended s) = option_map rval (aget Z.eqb k (seen (r s))).
+Proof. intros wops. exact (converges (expand_all [] wops)). Qed.
+
 (* non-vacuity: the history that used to diverge (announce x, y, x before one flush), then drained *)
 Example C04_example :
   let x := {| ridx := 1; rfam := 0; rattr := 10; rnh := 5 |} in
@@ -46,3 +55,4 @@ Print Assumptions C04_invariant.
 Print Assumptions C04_converges.
 Print Assumptions C04_last_announce_wins.
 Print Assumptions C04_withdrawn_stays_withdrawn.
+Print Assumptions C04_converges_with_watchdogs.
